@@ -330,7 +330,7 @@ pub(crate) fn format_domain(domain: &IndexMap<String, DomainVariable>) -> String
         domain_groups
             .entry(type_str)
             .or_default()
-            .push(name.clone());
+            .push(crate::utils::render_variable_name(name));
     }
 
     // Format each group
